@@ -224,6 +224,7 @@ func runC12(c *core.Ctx) {
 		}
 		if name == "Repositories" {
 			checkC12Listing(c, fn, recvTerm, ak)
+			checkFilterCallbackReturns(c, "C12.R4", "wrapper.Repositories", fn)
 		}
 	}
 	checkC12Select(c, ak)
